@@ -121,6 +121,7 @@ def diff(
 
     source_copy = source.copy() if copy else source
     target_copy = target.copy() if copy else target
+    unhashed: list[exp.Expr] = []
 
     try:
         # We cache the hash of each new node here to speed up equality comparisons. If the input
@@ -130,6 +131,9 @@ def diff(
             target_mapping = compute_node_mappings(target_nodes, tuple(target_copy.walk()))
             matchings = [(source_mapping[id(s)], target_mapping[id(t)]) for s, t in matchings]
         else:
+            # Only the hashes cached here are evicted afterwards: an input that is part of a bigger,
+            # already hashed tree must keep its hashes, or its ancestors would be left with stale ones
+            unhashed = [node for node in chain(source_nodes, target_nodes) if node._hash is None]
             for node in chain(reversed(source_nodes), reversed(target_nodes)):
                 node._hash = hash(node)
 
@@ -142,7 +146,7 @@ def diff(
     finally:
         # The hashes were cached on the input nodes unless the copies were hashed instead
         if not (copy and matchings):
-            for node in chain(source_nodes, target_nodes):
+            for node in unhashed:
                 node._hash = None
 
     return edit_script
